@@ -448,11 +448,10 @@ def diff(
     to `Diff`.
   """
   def _should_collapse(left, right):
-    if isinstance(left, dict):
-      if isinstance(right, dict):
-        return True
-    elif isinstance(left, list):
-      return isinstance(right, list)
+    if isinstance(left, list) or isinstance(right, list):
+      return isinstance(left, list) and isinstance(right, list)
+    if isinstance(left, dict) and isinstance(right, dict):
+      return True
 
     if (isinstance(left, (dict, base.Symbolic))
         and isinstance(right, (dict, base.Symbolic))):
